@@ -15,8 +15,10 @@
   verdict and object equal — the object exactly after OK / MoreBytes / MoreValues and up to the unexported
   saved restart offset `soffs` after an error verdict (the code leaves `soffs` at its entry value on the error
   exits, and the entry value depends on where the previous chunk ended; no exported accessor reads it).
-  NOT yet proved (covered by the correspondence + oracle checks only): ParseHdrLine, ParseHeaders,
-  ParseAllContactValues,
+  ParseAllContactValues, ParseAllPAIValues, ParseHdrLine, ParseHeaders: the relational law `RR` (same offset,
+  same verdict, same object unless the verdict is an error, same observable object after an error), with the
+  legitimacy conditions re-established at every suspension.
+  NOT yet proved (covered by the correspondence + oracle checks only):
   ParseAllPAIValues, ParseTokenParam, ParseAllURIParams, ParseAllURIHdrs. They are instances of
   the same generic theorems (`runLoop_resume` + one restart lemma per suspension site); the theorem below
   named `all_parsers_partial` states the full property with exactly those missing pieces as hypotheses.
@@ -27,6 +29,7 @@ import Sipsp.Proofs.SkipQuoted
 import Sipsp.Proofs.Schedule
 import Sipsp.Proofs.FLine
 import Sipsp.Proofs.NameAddrL2
+import Sipsp.Proofs.HeadersL2
 import Sipsp.Model.Msg
 
 namespace Sipsp.C02
@@ -83,6 +86,36 @@ theorem schedule_nameaddr (t : Nat) (o : Nat) (l : List Buf) (hg : Growing l) (h
     ResEq PFromBody.obs (resumeRun (parseNameAddrPVal t) o {} l) (oneShotRun (parseNameAddrPVal t) o {} l) :=
   resumeRun_eq_oneShotO (parseNameAddrPVal t) naOK PFromBody.obs (resume_nameaddr t) o {} l hg
     (fun b hb => Or.inr ⟨h0 b hb, Nat.zero_le _, Nat.zero_le _⟩)
+
+/-- ParseAllContactValues / ParseAllPAIValues -/
+theorem resume_contacts (b s : Buf) (o : Nat) (c : PContacts) (hok : ctOK b o c) (ho : o ≤ b.size)
+    {o' : Nat} {c' : PContacts} (hr : parseAllContactValues b o c = (o', Err.moreBytes, c')) :
+    RR PContacts.obs (parseAllContactValues (b ++ s) o' c') (parseAllContactValues (b ++ s) o c) ∧
+      ctOK (b ++ s) o' c' ∧ c'.cur.state ≠ .fin ∧ o ≤ o' ∧ o' ≤ b.size :=
+  parseAllContactValues_resume b s o c hok ho hr
+
+theorem resume_pais (b s : Buf) (o : Nat) (c : PPAIs) (hok : paOK b o c) (ho : o ≤ b.size)
+    {o' : Nat} {c' : PPAIs} (hr : parseAllPAIValues b o c = (o', Err.moreBytes, c')) :
+    RR PPAIs.obs (parseAllPAIValues (b ++ s) o' c') (parseAllPAIValues (b ++ s) o c) ∧
+      paOK (b ++ s) o' c' ∧ c'.cur.state ≠ .fin ∧ o ≤ o' ∧ o' ≤ b.size :=
+  parseAllPAIValues_resume b s o c hok ho hr
+
+/-- ParseHdrLine: every suspension site is a valid restart point -/
+theorem resume_hdrline (b s : Buf) (o : Nat) (h : Hdr) (hb : Option PHdrVals) (hok : hlOK b o h hb)
+    (hpe : hlPending (h, hb)) {o' : Nat} {h' : Hdr} {hb' : Option PHdrVals}
+    (hr : parseHdrLine b o h hb = (o', Err.moreBytes, h', hb')) :
+    RR hlObs (parseHdrLine (b ++ s) o' h' hb') (parseHdrLine (b ++ s) o h hb) ∧
+      hlOK (b ++ s) o' h' hb' ∧ hlPending (h', hb') ∧ o ≤ o' ∧ o' ≤ b.size :=
+  parseHdrLine_resume b s o h hb hok hpe hr
+
+/-- ParseHeaders -/
+theorem resume_headers (b s : Buf) (o : Nat) (hl : HdrLst) (hb : Option PHdrVals)
+    (hok1 : hlsOK b hl) (hok2 : hbOK b o hb) (hpe : hlsPend hl hb) (ho : o ≤ b.size)
+    {o' : Nat} {hl' : HdrLst} {hb' : Option PHdrVals}
+    (hr : parseHeaders b o hl hb = (o', Err.moreBytes, hl', hb')) :
+    RR hdrsObs (parseHeaders (b ++ s) o' hl' hb') (parseHeaders (b ++ s) o hl hb) ∧
+      hlsOK (b ++ s) hl' ∧ hbOK (b ++ s) o' hb' ∧ hlsPend hl' hb' ∧ o ≤ o' ∧ o' ≤ b.size :=
+  parseHeaders_resume b s o hl hb hok1 hok2 hpe ho hr
 
 /-- SkipQuoted as a parser over the trivial object -/
 def skipQuotedP : Parser Unit := fun b o _ => ((skipQuoted b o).1, (skipQuoted b o).2, ())
